@@ -2,6 +2,7 @@ package rt
 
 import (
 	"bytes"
+	"math/big"
 	"sync"
 
 	vh "github.com/emmansun/gmsm/verifhook"
@@ -277,6 +278,13 @@ func sm9aliased(op, grp string, st Step, regs map[int]*sm9reg) []sm9alias {
 			if _, err := x.ScalarMult(x, k); err == nil {
 				out = append(out, sm9alias{"x.ScalarMult(x, k)", x.Marshal()})
 			}
+		case "gt":
+			// the second entry point for the same operation (big.Int exponent), fresh and aliased receiver
+			ki := new(big.Int).SetBytes(k)
+			out = append(out, sm9alias{"GT.ScalarMult(a, big.Int)", new(vh.GT).ScalarMult(s.gt, ki).Marshal()})
+			x := gtc(s.gt)
+			x.ScalarMult(x, ki)
+			out = append(out, sm9alias{"x.ScalarMult(x, big.Int)", x.Marshal()})
 		}
 	case "add":
 		a, b := regs[st.Int("a")], regs[st.Int("b")]
@@ -333,6 +341,8 @@ func sm9aliased(op, grp string, st Step, regs map[int]*sm9reg) []sm9alias {
 					out = append(out, sm9alias{"used receiver", x.Marshal()})
 				}
 			}
+		case "gt":
+			out = append(out, sm9alias{"GT.ScalarBaseMult(big.Int)", new(vh.GT).ScalarBaseMult(new(big.Int).SetBytes(k)).Marshal()})
 		}
 	}
 	return out
